@@ -35,6 +35,9 @@ type Obligation struct {
 	NameSensitive        []string `json:"name_sensitive,omitempty"`
 	Watch                []watch  `json:"-"`
 
+	Values map[string]string `json:"values,omitempty"` // witness values read from the model
+	PkgDir string            `json:"pkg_dir,omitempty"`
+
 	// results
 	Status  string  `json:"status"` // discharged | failed | unknown | generr | covered | vacuous
 	Solver  string  `json:"solver"`
@@ -299,13 +302,95 @@ func dischargeOne(o *Obligation, dir string, timeoutS int) {
 // declared (non-array) constants.
 func getModel(o *Obligation, file string, s solverSpec, timeoutS int) string {
 	mfile := strings.TrimSuffix(file, ".smt2") + ".model.smt2"
-	text := o.smtText(true) + "(get-model)\n"
+	text := o.smtText(true)
+	for _, w := range o.Watch {
+		text += "(get-value (" + w.Term + "))\n"
+	}
+	text += "(get-model)\n"
 	if os.WriteFile(mfile, []byte(text), 0o644) != nil {
 		return ""
 	}
 	_, _, out := runSolver(s, mfile, timeoutS)
+	// the first len(Watch) answers after "sat" are the witness values, one "((term value))" each
+	if len(o.Watch) > 0 {
+		o.Values = map[string]string{}
+		rest := out
+		if i := strings.Index(rest, "\n"); i >= 0 {
+			rest = rest[i+1:]
+		}
+		for _, w := range o.Watch {
+			val, r2, ok := nextGetValue(rest)
+			if !ok {
+				break
+			}
+			o.Values[w.Name] = val
+			rest = r2
+		}
+	}
 	if len(out) > 200000 {
 		out = out[:200000]
 	}
 	return out
+}
+
+// nextGetValue parses one "((term value))" answer and returns the value text.
+func nextGetValue(s string) (val, rest string, ok bool) {
+	i := strings.Index(s, "((")
+	if i < 0 {
+		return "", s, false
+	}
+	depth := 0
+	end := -1
+	inq := false
+	for j := i; j < len(s); j++ {
+		c := s[j]
+		if c == '|' {
+			inq = !inq
+		}
+		if inq {
+			continue
+		}
+		if c == '(' {
+			depth++
+		} else if c == ')' {
+			depth--
+			if depth == 0 {
+				end = j
+				break
+			}
+		}
+	}
+	if end < 0 {
+		return "", s, false
+	}
+	body := s[i+2 : end-1] // "term value"
+	// the value is the last balanced s-expression or atom of body
+	body = strings.TrimSpace(body)
+	k := len(body) - 1
+	if k >= 0 && body[k] == ')' {
+		d := 0
+		for ; k >= 0; k-- {
+			if body[k] == ')' {
+				d++
+			} else if body[k] == '(' {
+				d--
+				if d == 0 {
+					break
+				}
+			}
+		}
+	} else {
+		for ; k >= 0 && body[k] != ' ' && body[k] != '\n'; k-- {
+		}
+		k++
+	}
+	if k < 0 {
+		k = 0
+	}
+	v := strings.TrimSpace(body[k:])
+	v = strings.Join(strings.Fields(v), " ")
+	if strings.HasPrefix(v, "(- ") {
+		v = "-" + strings.TrimSuffix(strings.TrimPrefix(v, "(- "), ")")
+	}
+	return v, s[end+1:], true
 }
